@@ -1039,7 +1039,7 @@ def resolve_join_variables(input_variables_map, join_variables_map, variable_pai
             raise RbqlParsingError(ambiguous_error_msg.format(join_var_1))
         if join_var_2 in input_variables_map and join_var_2 in join_variables_map:
             raise RbqlParsingError(ambiguous_error_msg.format(join_var_2))
-        if join_var_2 in input_variables_map:
+        if join_var_2 in input_variables_map or join_var_2 in ['NR', 'a.NR', 'aNR']:
             join_var_1, join_var_2 = join_var_2, join_var_1
         if join_var_1 in ['NR', 'a.NR', 'aNR']:
             lhs_key_index = -1
